@@ -293,6 +293,49 @@ def unit(argv: List[str]) -> int:
         ok(False, "EntityTooSmall not enforced")
     except core.ServiceRejection:
         ok(True, "EntityTooSmall")
+    # in-flight Variable.delete(): takes effect when the scheduler delivers it, not when it is sent
+    for order in ("deliver-first", "set-first"):
+        cl = fakes.FakeCluster()
+        cl.default_client = fakes.FakeClient(cl, "c0")
+        cl.delete_in_flight = lambda name: True
+        fakes.CLUSTER = cl
+        k = K.Kernel()
+        K.activate(k)
+        try:
+            cl.vars["v"] = "U1"
+            k.spawn("A", lambda: fakes.FakeVariable("v").delete())
+            k.step("A")  # parks at the delete seam
+            k.step("A")  # sends the message and finishes; the message is a thread of its own now
+            ok("v" in cl.vars and any(n_.startswith("net.del") for n_ in k.threads), "delete sent, not yet applied")
+            net = next(n_ for n_ in k.threads if n_.startswith("net.del"))
+            if order == "set-first":
+                cl.vars["v"] = "U2"  # a later upload publishes its id before the old delete arrives
+            k.step(net)  # parks at the delivery seam
+            k.step(net)
+            ok("v" not in cl.vars, f"delivery removes the variable, whatever it holds by then ({order})")
+        finally:
+            k.shutdown()
+            K.activate(None)
+            fakes.CLUSTER = None
+    # canonical task names: structurally identical sub-graphs are told apart by the requested key they feed,
+    # and chunks of an engine's source array are named after what consumes them, whatever dask called them
+    import dask
+    from dask._task_spec import Task, TaskRef
+
+    from .dasksim import DaskSim
+
+    def mk(names):
+        a, b, sa, sb = names
+        return {(sa, 0): Task((sa, 0), int, 1), (sb, 0): Task((sb, 0), int, 2), (a, 0): Task((a, 0), abs, TaskRef((sa, 0))), (b, 0): Task((b, 0), abs, TaskRef((sb, 0)))}
+
+    orders = []
+    for names in (("work-" + "a" * 32, "work-" + "b" * 32, "pix-astype-" + "c" * 32, "pix-astype-astype-" + "d" * 32), ("work-" + "f" * 32, "work-" + "e" * 32, "pix-" + "9" * 32, "pix-astype-" + "8" * 32)):
+        sim_ = DaskSim(core.Chooser(None, [], []), core.Digest())
+        dsk = mk(names)
+        got = sim_(dsk, [(names[0], 0), (names[1], 0)])
+        ok(got == [1, 2], "DaskSim result")
+        orders.append(list(sim_.order))
+    ok(orders[0] == orders[1], f"canonical order independent of tokens and of fused-name spelling: {orders}")
     print(f"selftest-unit: OK - {n} assertions")
     return 0
 
